@@ -246,6 +246,21 @@ def run(world, rep, tier, only=None):
         rep.ob("C12.c", site(wu, "header CRC set before header write"), wu.dominated_by(h, crcset),
                "hdr.header_crc is stored on every path before the header is written")
 
+    # ------------------------------------------------------------------ C12.j every index update reaches the header
+    # undo_write_tdb() calls write_undo_indexes() after each saved block, before the device is overwritten.  The
+    # header write at its end is what pushes the saved data and the key block out of the undo file's write-back
+    # cache (an odd-sized write flushes and invalidates): no successful return may come before it.
+    wu2 = ufile.get("write_undo_indexes")
+    hws = [n for n in calls_to(wu2, "io_channel_write_blk64", "io_channel_write_blk") if (T.path(arg(n, 0)) or "").endswith("undo_file")
+           and ("hdr" in T.pp(arg(n, 3) or {}) or T.const(arg(n, 1)) == 0)]
+    rep.floor("C12.j header write in write_undo_indexes", len(hws), 1)
+    exj = absint.Explorer(wu2, prog)
+    termsj = exj.run([wu2.entry_node()], on_node=lambda node, env, flags, _h=hws: flags | {"hdr"} if node in _h else flags)
+    early = sorted({node.line for (node, env, fl, st) in termsj if node.ev and node.ev["e"] == "R" and
+                    absint._z(exj.eval(node.ev.get("x"), env)) and "hdr" not in fl})
+    rep.ob("C12.j", site(wu2, "no successful return before the header is written"), not early,
+           "zero returns of write_undo_indexes() that skip the header write: lines %s" % early)
+
     # ------------------------------------------------------------------ C12.d
     SETUP = [("mke2fs", "misc/mke2fs.c", "mke2fs_setup_tdb"), ("tune2fs", "misc/tune2fs.c", "tune2fs_setup_tdb"),
              ("resize2fs", "resize/main.c", "resize2fs_setup_tdb"), ("e2fsck", "e2fsck/unix.c", "e2fsck_setup_tdb"),
